@@ -302,8 +302,18 @@ def build(spec: Dict) -> Tuple[Dict, Dict]:
            "simulation": {"network": net}}
     if spec.get("defaults"):
         cfg["defaults"] = dict(spec["defaults"])
+    # group the action-map entries by the component they address, for "workflow" ops (several verbs on ONE component)
+    groups: Dict[str, List[int]] = {}
+    for i, a in enumerate(actions):
+        o = a["options"]
+        node = o.get("node_name") or o.get("target_router") or o.get("target_nodename") or o.get("target_firewall_nodename") or o.get("source_node")
+        comp = o.get("service_name") or o.get("application_name") or (o.get("folder_name", "") + "/" + o.get("file_name", "") if "folder_name" in o else None)
+        if comp is None:
+            comp = "nic" if "nic_num" in o or "port_num" in o else ("acl" if "position" in o else ("user" if "username" in o else "node"))
+        if node is not None:
+            groups.setdefault(f"{node}|{comp}", []).append(i)
     meta = {"hosts": hosts_meta, "routers": routers, "firewalls": firewalls, "switches": switches,
-            "actions": actions, "links": links}
+            "actions": actions, "links": links, "components": [g for g in groups.values() if len(g) >= 2]}
     return cfg, meta
 
 
@@ -356,6 +366,16 @@ def build_actions(hosts, routers, firewalls, switches, spec) -> List[Dict]:
         add("router-acl-add-rule", "acl", target_router=r, position=2, permission="PERMIT", src_ip="ALL",
             src_wildcard="NONE", src_port="HTTP", dst_ip=hosts[-1]["ip"], dst_wildcard="0.0.0.255", dst_port="HTTP",
             protocol_name="tcp")
+        # rules in the first (observed) slots with every protocol and with listed / unlisted ports and addresses
+        add("router-acl-add-rule", "acl", target_router=r, position=0, permission="DENY", src_ip="ALL",
+            src_wildcard="NONE", src_port="DNS", dst_ip="ALL", dst_wildcard="NONE", dst_port="DNS", protocol_name="udp")
+        add("router-acl-add-rule", "acl", target_router=r, position=3, permission="PERMIT", src_ip=hosts[-1]["ip"],
+            src_wildcard="0.0.0.1", src_port="ALL", dst_ip="8.8.8.8", dst_wildcard="NONE", dst_port="ALL",
+            protocol_name="icmp")
+        add("router-acl-add-rule", "acl", target_router=r, position=1, permission="PERMIT", src_ip="ALL",
+            src_wildcard="NONE", src_port="FTP", dst_ip="ALL", dst_wildcard="NONE", dst_port="POSTGRES_SERVER",
+            protocol_name="tcp")
+        add("router-acl-remove-rule", "acl", target_router=r, position=0)
         add("router-acl-remove-rule", "acl", target_router=r, position=1)
         add("router-acl-remove-rule", "acl", target_router=r, position=21)
         add("network-port-disable", "port", target_nodename=r, port_num=1)
@@ -377,6 +397,13 @@ def build_actions(hosts, routers, firewalls, switches, spec) -> List[Dict]:
     add("host-nic-disable", "missing", node_name=h0, nic_num=7)
     add("node-file-scan", "missing", node_name=h0, folder_name="nofolder", file_name="nofile")
     add("node-folder-scan", "missing", node_name=h0, folder_name="nofolder")
+    # the uninstall request looks a name up among ALL installed software, so it also removes services:
+    # afterwards every node-service-* entry for that name addresses a component that no longer exists
+    for svc in (hosts[0]["services"][:1] + ["dns-client", "ftp-client"]):
+        add("node-application-remove", "app", node_name=h0, application_name=svc)
+    for v in ("stop", "start", "scan", "fix", "disable", "enable"):
+        add(f"node-service-{v}", "service", node_name=h0, service_name="dns-client")
+        add(f"node-service-{v}", "service", node_name=h0, service_name="ftp-client")
     add("node-application-install", "app", node_name=h0, application_name="dos-bot")
     add("node-application-remove", "app", node_name=h0, application_name="dos-bot")
     for v in ("execute", "close", "scan", "fix"):
